@@ -3,6 +3,7 @@
 SPECIFICATION Spec
 CONSTANTS
   IfaceDeep = FALSE
+  EmptyDeep = TRUE
   ExactSize = TRUE
   RedactOnCopy = TRUE
   MaxMut = 1
